@@ -117,6 +117,9 @@ FROM storage_volumes v
 ORDER BY v.id ASC`
 
 	err = s.transaction(func(tx *txn) error {
+		// the transaction may be retried: start from an empty result
+		volumes = volumes[:0]
+
 		rows, err := tx.Query(query)
 		if err != nil {
 			return fmt.Errorf("query failed: %w", err)
@@ -245,8 +248,13 @@ func (s *Store) MigrateSectors(ctx context.Context, volumeID int64, startIndex u
 			return
 		}
 
-		var done bool
+		// the closure only overwrites these: the transaction may be retried, and a
+		// rolled back attempt must not advance the loop or the counters
+		var done, sectorMigrated, sectorFailed bool
+		var nextIndex uint64
 		err = s.transaction(func(tx *txn) error {
+			done, sectorMigrated, sectorFailed = false, false, false
+
 			const query = `SELECT vs.id, vs.volume_id, vs.volume_index, ss.sector_root, vs.sector_id FROM volume_sectors vs
 LEFT JOIN stored_sectors ss ON vs.sector_id=ss.id
 WHERE vs.volume_id=$1 AND vs.volume_index >= $2 AND vs.sector_id IS NOT NULL
@@ -262,7 +270,7 @@ LIMIT 1;`
 			} else if err != nil {
 				return fmt.Errorf("failed to get sector: %w", err)
 			}
-			index = from.Index + 1 // update the start index for the next iteration
+			nextIndex = from.Index + 1 // the start index for the next iteration
 
 			to, err := emptyLocationForMigration(tx, volumeID, startIndex)
 			if err != nil {
@@ -274,8 +282,8 @@ LIMIT 1;`
 			// waiting on disk I/O. This is acceptable since it's extremely important that migrations
 			// are atomic.
 			if migrateErr := migrateFn(from, to); migrateErr != nil {
-				log.Error("failed to migrate sector", zap.Error(migrateErr), zap.Uint64("index", index), zap.Stringer("root", from.Root))
-				failed++
+				log.Error("failed to migrate sector", zap.Error(migrateErr), zap.Uint64("index", nextIndex), zap.Stringer("root", from.Root))
+				sectorFailed = true
 				return nil
 			}
 
@@ -297,7 +305,7 @@ LIMIT 1;`
 				return errors.New("failed to update sector location: no rows affected")
 			}
 
-			migrated++
+			sectorMigrated = true
 			log.Debug("migrated sector", zap.Uint64("fromIndex", from.Index), zap.Int64("fromVolume", from.Volume), zap.Uint64("toIndex", to.Index), zap.Int64("toVolume", to.Volume), zap.Stringer("root", from.Root))
 			if from.Volume == to.Volume {
 				return nil // skip updating metrics if the volume is not changing
@@ -315,6 +323,13 @@ LIMIT 1;`
 			return
 		} else if done {
 			return
+		}
+		// the transaction is committed: advance
+		index = nextIndex
+		if sectorMigrated {
+			migrated++
+		} else if sectorFailed {
+			failed++
 		}
 		// allow other transactions to run
 		jitterSleep(50 * time.Millisecond) // maximum of 48000 sectors per hour
